@@ -450,7 +450,7 @@ fn gen_props(rng: &mut Rng, mask: u32) -> Props {
         p.push((canon::P_PAYLOAD_FORMAT, PVal::U8(1)));
     }
     if mask & 2 != 0 {
-        p.push((canon::P_MESSAGE_EXPIRY, PVal::U32(*rng.pick(&[1u32, 60, 86_400, u32::MAX]))));
+        p.push((canon::P_MESSAGE_EXPIRY, PVal::U32(*rng.pick(&[3_600u32, 7_200, 86_400, u32::MAX]))));
     }
     if mask & 4 != 0 {
         p.push((canon::P_CONTENT_TYPE, PVal::Str(canon::gen_str(rng, &Sizes::small(), 0))));
